@@ -359,4 +359,111 @@ theorem inv_reach (C : Codec V) (s0 : St V) (scripts : List (List (Op V × Fault
     (hr : Reach (sys C) (init s0, scripts.map start) c) : Inv C s0 c :=
   inv_induction (Inv C s0) (inv_init C s0 scripts) (fun _ _ hi hs => inv_step C s0 hi hs) hr
 
+/-! ### scripts only shrink, and every log entry is an operation some script contained -/
+
+theorem tstep_ops (C : Codec V) {s s' : Shared V} {t t' : Thread V} (h : (s', t') ∈ tstep C s t) :
+    (∀ x ∈ t'.script, x ∈ t.script) ∧ (∀ e ∈ s'.log, e ∈ s.log ∨ (e.1, e.2.1) ∈ t.script) := by
+  obtain ⟨script, pc⟩ := t
+  simp only [tstep] at h
+  cases script with
+  | nil => simp at h
+  | cons x rest =>
+    obtain ⟨op, F⟩ := x
+    cases pc with
+    | idle =>
+      simp only at h
+      split at h
+      · simp at h
+      · split at h
+        all_goals
+          simp only [List.mem_singleton, Prod.mk.injEq] at h
+          obtain ⟨rfl, rfl⟩ := h
+          exact ⟨fun x hx => hx, fun e he => Or.inl he⟩
+    | wantR =>
+      simp only at h
+      split at h
+      · simp at h
+      · simp only [List.mem_singleton, Prod.mk.injEq] at h
+        obtain ⟨rfl, rfl⟩ := h
+        exact ⟨fun x hx => hx, fun e he => Or.inl he⟩
+    | r1 =>
+      simp only at h
+      cases hf : fastOut s.tv op with
+      | none =>
+        simp only [hf, List.mem_singleton, Prod.mk.injEq] at h
+        obtain ⟨rfl, rfl⟩ := h
+        exact ⟨fun x hx => hx, fun e he => Or.inl he⟩
+      | some o =>
+        simp only [hf, List.mem_singleton, Prod.mk.injEq] at h
+        obtain ⟨rfl, rfl⟩ := h
+        refine ⟨fun x hx => hx, fun e he => ?_⟩
+        simp only [List.mem_append, List.mem_singleton] at he
+        rcases he with he | rfl
+        · exact Or.inl he
+        · exact Or.inr (by simp)
+    | rHit o =>
+      simp only [List.mem_singleton, Prod.mk.injEq] at h
+      obtain ⟨rfl, rfl⟩ := h
+      exact ⟨fun x hx => List.mem_cons_of_mem _ hx, fun e he => Or.inl he⟩
+    | rMiss =>
+      simp only [List.mem_singleton, Prod.mk.injEq] at h
+      obtain ⟨rfl, rfl⟩ := h
+      exact ⟨fun x hx => hx, fun e he => Or.inl he⟩
+    | wantW =>
+      simp only at h
+      split at h
+      · simp at h
+      · simp only [List.mem_singleton, Prod.mk.injEq] at h
+        obtain ⟨rfl, rfl⟩ := h
+        exact ⟨fun x hx => hx, fun e he => Or.inl he⟩
+    | w1 =>
+      simp only [List.mem_singleton, Prod.mk.injEq] at h
+      obtain ⟨rfl, rfl⟩ := h
+      exact ⟨fun x hx => hx, fun e he => Or.inl he⟩
+    | w2 r =>
+      simp only [List.mem_singleton, Prod.mk.injEq] at h
+      obtain ⟨rfl, rfl⟩ := h
+      exact ⟨fun x hx => hx, fun e he => Or.inl he⟩
+    | w3 r =>
+      simp only [List.mem_singleton, Prod.mk.injEq] at h
+      obtain ⟨rfl, rfl⟩ := h
+      exact ⟨fun x hx => hx, fun e he => Or.inl he⟩
+    | wUnlock r =>
+      simp only [List.mem_singleton, Prod.mk.injEq] at h
+      obtain ⟨rfl, rfl⟩ := h
+      refine ⟨fun x hx => List.mem_cons_of_mem _ hx, fun e he => ?_⟩
+      simp only [List.mem_append, List.mem_singleton] at he
+      rcases he with he | rfl
+      · exact Or.inl he
+      · exact Or.inr (by simp)
+
+/-- All operations in the scripts and in the log satisfy `P`. -/
+def OpsFrom (P : Op V → Prop) (c : Cfg (Shared V) (Thread V)) : Prop :=
+  (∀ t ∈ c.2, ∀ x ∈ t.script, P x.1) ∧ (∀ e ∈ c.1.log, P e.1)
+
+theorem opsFrom_reach (C : Codec V) (P : Op V → Prop) (s0 : St V) (scripts : List (List (Op V × Faults)))
+    (hP : ∀ sc ∈ scripts, ∀ x ∈ sc, P x.1) {c : Cfg (Shared V) (Thread V)}
+    (hr : Reach (sys C) (init s0, scripts.map start) c) : OpsFrom P c := by
+  refine inv_induction (OpsFrom P) ?_ ?_ hr
+  · constructor
+    · intro t ht x hx
+      simp only [List.mem_map] at ht
+      obtain ⟨sc, hsc, rfl⟩ := ht
+      exact hP sc hsc x hx
+    · intro e he; simp [init] at he
+  · intro a b ha hs
+    cases hs with
+    | mk s pre t post s' t' hmem =>
+      obtain ⟨h1, h2⟩ := tstep_ops C hmem
+      obtain ⟨ha1, ha2⟩ := ha
+      constructor
+      · intro u hu x hx
+        rcases mem_mid hu with rfl | hu
+        · exact ha1 t (by simp) x (h1 x hx)
+        · exact ha1 u (mem_mid' hu) x hx
+      · intro e he
+        rcases h2 e he with he | he
+        · exact ha2 e he
+        · exact ha1 t (by simp) _ he
+
 end Hive.Typed.Conc
